@@ -27,6 +27,24 @@ Theorem C19_inside_multiline_untouched : forall l rest st margin,
 Proof. exact inside_multiline_untouched. Qed.
 Print Assumptions C19_inside_multiline_untouched.
 
+(* the printer side (write_indented_block + flush at the current indentation level) *)
+Theorem C19_flush_one_line_per_entry : forall ind ls st margin, length (flush_lines ind ls st margin) = length ls.
+Proof. exact flush_one_line_per_entry. Qed.
+Print Assumptions C19_flush_one_line_per_entry.
+
+Theorem C19_flush_inside_multiline_untouched : forall ind l rest st margin,
+  p_backslashed st = true \/ p_triple st = true ->
+  flush_lines ind (l :: rest) st margin = l :: flush_lines ind rest (snd (p_in_multi_line st l)) margin.
+Proof. exact flush_inside_multiline_untouched. Qed.
+Print Assumptions C19_flush_inside_multiline_untouched.
+
+Theorem C19_flush_replaces_margin : forall ind m body rest,
+  simple (m ++ body) -> p_in_multi_line p0 (m ++ body) = (false, p0) ->
+  flush_lines ind ((m ++ body) :: rest) p0 (Some m) =
+    (match m with [] => ind ++ body | _ => ind ++ body end) :: flush_lines ind rest p0 (Some m).
+Proof. exact flush_replaces_margin. Qed.
+Print Assumptions C19_flush_replaces_margin.
+
 (* the full statement -- no character inside a string literal changes -- is false of the faithful
    model; the witness replays on the implementation (known finding C19-F3) *)
 Theorem C19_strings_untouched_refuted :
